@@ -568,6 +568,18 @@ func step(w []string, line string) string {
 		case "close":
 			b.Clients[w[1]].CloseSocket()
 			return collect(true, false, w[1])
+		case "closeheld":
+			// closeheld <client> <watcher>: the connection ends while a presence watcher does not read its socket
+			// (the notification dispatcher is stuck behind it, the queue fills up); then the watcher reads again.
+			// Every subscription the connection held must still be reported as gone.
+			wc := b.Clients[w[2]]
+			wc.Hold()
+			done := make(chan struct{})
+			go func() { defer close(done); b.Clients[w[1]].CloseSocket() }()
+			time.Sleep(60 * time.Millisecond)
+			wc.Release()
+			<-done
+			return collect(true, false, w[1])
 		case "deafen":
 			// injected fault: from now on every write of the broker to this connection fails; it stays
 			// connected and subscribed. Nobody else may notice.
